@@ -56,16 +56,18 @@ ChalGroupCheck(s, keys, contrib, vg, pr, sp, entry) ==
           [] s = "pst13" /\ HasMut(pr, 0, "wlen") -> "panic"
           [] OTHER -> "none"
       anyContrib == \E i \in 1..pr.n : contrib[pr.srcs[i]]
+      \* Sonic: a bound equal to max_degree shifts by zero (same artefact as "no bound")
+      Norm(b) == IF s = "sonic" /\ b = keys.maxdeg THEN NONE ELSE b
       holds ==
         /\ pr.muts = {}
         /\ pr.n = n
         /\ \A i \in 1..n :
              /\ clist[i].src = pr.srcs[i]
              /\ clist[i].plain = "own"
-             /\ clist[i].lbound = pr.bounds[i]
-             /\ clist[i].lbound # NONE =>
-                  (clist[i].bound = clist[i].lbound /\ (s = "sonic" \/ clist[i].shifted = "own"))
-             /\ clist[i].lbound = NONE => clist[i].bound = NONE
+             /\ Norm(clist[i].lbound) = Norm(pr.bounds[i])
+             /\ Norm(clist[i].lbound) # NONE =>
+                  (Norm(clist[i].bound) = Norm(clist[i].lbound) /\ (s = "sonic" \/ clist[i].shifted = "own"))
+             /\ Norm(clist[i].lbound) = NONE => Norm(clist[i].bound) = NONE
              /\ vg.deltas[i] = 0
         /\ anyContrib => (vg.pt = pr.pt /\ sp = pr.pre)
       unknown == s = "ipa" /\ HasMut(pr, 0, "rounds") /\ entry = "batch"
